@@ -96,6 +96,7 @@ pub fn spec(id: &str, tier: Tier) -> Option<CheckSpec> {
         "C12" => {
             let mut s = CheckSpec::new("exploration", tier);
             s.jobs = eng_total::jobs(tier);
+            s.jobs.extend(eng_proc::jobs("C12", tier));
             s.rule = "every sequence of <= N tokens over a 26-token Ninja alphabet (keywords, blanks, newline, : | || |@ $ ${ } = #, NUL, CR, TAB, a 2-byte character, $-newline) with and without final newline; every byte string of length <= B; every single-token deletion / duplication / replacement by 10 tokens and every truncation at a token boundary of ~3700 valid manifests (thorough: pairs); error-column families (lines of 1..70 and 4085..4097 bytes built from 1-4-byte characters with the error at the end, start and middle); empty expansions in every path position; 58..66-component paths; every token sequence <= M as the content of an included / subninja'd file on disk, including self- and mutual inclusion; every command-line target string <= T over {a . / \\ é}; every depfile string <= 9 over {a,space,:,\\,newline} and a NUL/CR/UTF-8 alphabet. Oracle: returns Ok, or Err whose text is a well-formed diagnostic (for syntax errors: `parse error: `, file:line with the line in range, an excerpt that is part of that line, a caret under the excerpt); no panic, abort or hang, with debug assertions, overflow checks and unsafe-precondition checks enabled. Non-trivial = rejected inputs and inputs that declare at least one step.".into();
             s.assumptions = vec![
                 "reads outside the buffer that are not guarded by a debug assertion or unsafe-precondition check are not observable by this check".into(),
@@ -105,9 +106,22 @@ pub fn spec(id: &str, tier: Tier) -> Option<CheckSpec> {
             s.hang_secs = 20;
             s
         }
+        "C16" => {
+            let mut s = CheckSpec::new("exploration", tier);
+            s.jobs = eng_proc::jobs("C16", tier);
+            s.rule = "the real n2 binary with real /bin/sh commands that record their own argv (/proc/$$/cmdline), stdin, open descriptors and cwd: 14 command strings (quotes, $-expansion, redirections, ;, &&, subshells, globs, UTF-8) x 3 output placements (plain, nested directories with an rspfile, a directory with a blank); output volumes {0,1,4095,4096,4097,8191,8192,65535,65536,65537,200000} via stdout, stderr, alternating, and two concurrent commands; every exit code 0..=255 and every signal 1..=31 except the stop signals; -j in {1,2,4,8,16} with 2j commands printing a tagged 5000-byte block in pieces; and every output of <= N tokens over {note prefix, x, blank, LF, CR, y} through the real /showIncludes filter against a reference filter. Non-trivial = every configuration that ran to its oracle.".into();
+            s.assumptions = vec![
+                "NOT decided: how the kernel interleaves real children and pipe wake-ups is not controllable with anything installed; each configuration is run once, and the oracles only state what must hold under every interleaving (contiguity, exactly-once, status mapping)".into(),
+                "all interleavings of the collector threads (loom on task::Runner) were not built; see DESIGN.md".into(),
+            ];
+            s.exhaustive = true;
+            s.hang_secs = 60;
+            s
+        }
         "C01" | "C04" | "C05" | "C06" | "C18" | "C19" => {
             let mut s = CheckSpec::new("model_checking", tier);
             s.jobs = eng_sched::jobs(id, tier);
+            s.jobs.extend(eng_proc::jobs(id, tier));
             s.rule = format!("stateless exhaustive exploration of the real run::build under a gated, scripted executor: for every scenario of the families {:?} (abstract project -> generated manifest loaded by the real loader; initial state fresh or fully built then edited; per-step command outcome; -j/-k/targets) every sequence of choices (which running command finishes next; in which order newly ready dependents are visited) is executed and the property's trace monitor is evaluated against the abstract project and the reference model. States = explorer nodes (scenario, choice prefix), transitions = choice points taken, non-trivial = distinct traces with at least two command starts.", s.jobs.iter().map(|j| j.0.clone()).collect::<Vec<_>>());
             s.assumptions = vec![
                 "commands are scripted: they write only their outputs/depfile, with mtimes from a logical clock".into(),
@@ -126,6 +140,9 @@ pub fn spec(id: &str, tier: Tier) -> Option<CheckSpec> {
             }
             if id == "C17" {
                 s.jobs.extend(eng_sched::jobs("C17", tier));
+            }
+            if id == "C09" || id == "C02" || id == "C03" {
+                s.jobs.extend(eng_proc::jobs(id, tier));
             }
             s.rule = format!("exhaustive walk of the history tree of the templates {:?}: a history alternates edit sets (every single edit of the template's alphabet: touch each source/header, delete/touch each output and intermediate, delete a header, delete a declared source, change what a compiler reports, replace the manifest by each variant / let the generator write each variant; thorough: also all compatible pairs in the first round) and invocations (build default / each single target / every completion order at -j2 / build with each failing command, with -k1 / n2 killed after 1-2 completions leaving fresh garbage / restat) to depth {}; each invocation runs the real loader, db and scheduler on a real tree under the scripted executor, and is judged against the reference model: everything that ran was dirty, after success everything wanted is clean and carries the content tag a from-scratch evaluation gives, an identical repeat does nothing. States = history nodes, transitions = invocations, non-trivial = invocations judged without violation after a non-empty history step.", s.jobs.iter().map(|j| j.0.clone()).collect::<Vec<_>>(), tier.pick(2, 3));
             s.assumptions = vec![
